@@ -113,8 +113,15 @@ func c20Prog(r *Rng, idx int) *Prog {
 		}
 	}
 	for _, c := range p.Root.Cmds {
-		c.ArgComp = []string{"zeta", "alpha", "alpine", "beta"}
+		c.ArgComp = []string{"zeta", "alpha", "alpine", "beta", "alpha"}
+		c.ArgCompFn = []string{"alpine", "dyn"}
 	}
+	// the same word from several sources (command name, static list, dynamic function)
+	p.Root.ArgComp = []string{"zeta", "dup", "dup", "alpha"}
+	for _, c := range p.Root.Cmds {
+		p.Root.ArgComp = append(p.Root.ArgComp, c.Name)
+	}
+	p.Root.ArgCompFn = []string{"zeta", "dyn"}
 	return p
 }
 
